@@ -47,13 +47,19 @@ type vWorld struct {
 	// standing registered filters of the shape (the cache is maintained by every operation and
 	// characterised exactly by invCache); their ghost count for the statistics laws
 	nStanding int
+	// the registered filter a batch harness selected through (nil: unregistered), see batchEpilogue
+	regBatch *Filter0
 }
+
+// vNoMul: set by the thorough-only harnesses (Verif<ID>T_*), which are deep on their own and
+// are not multiplied by the other component-ID placements
+var vNoMul bool
 
 func vIsRel(c int) bool { return c == cR1 || c == cR2 }
 
 // vNewWorld registers pad dummy components first, so that the real ones get IDs pad..pad+5.
 func vNewWorld(capacity, relCapacity, pad int) *vWorld {
-	if pad == 60 && vthorough() {
+	if pad == 60 && vthorough() && !vNoMul {
 		// thorough tier: every world harness also runs with the six component IDs placed at the
 		// bottom of the mask, across the word 1/2 and word 2/3 boundaries and at the top
 		pad = []int{60, 0, 124, 188, 248}[vPick("component-id-placement", 5)]
